@@ -4,7 +4,7 @@ from common import *
 import e2e
 
 PROP = "C08"
-HEADER = ("From Coq Require Import List NArith Bool.\nImport ListNotations.\nLocal Open Scope N_scope.\nFrom DV Require Import Layout.Model.")
+HEADER = ("From Coq Require Import List NArith Bool.\nImport ListNotations.\nLocal Open Scope N_scope.\nFrom DV Require Import Layout.Model Layout.Result.")
 
 PRIMS = {"u8": (1, "B"), "i8": (1, "b"), "u16": (2, "H"), "i16": (2, "h"), "u32": (4, "I"), "i32": (4, "i"), "u64": (8, "Q"), "i64": (8, "q"),
          "f32": (4, "f"), "f64": (8, "d"), "bool": (1, "?"), "DiplomatChar": (4, "I"), "usize": (4, "I"), "isize": (4, "i")}
@@ -135,11 +135,38 @@ def rust_ty(t):
     return f"DiplomatOption<{rust_ty(t[1])}>"
 
 
+# error payloads of every alignment, one of them with a size that is no multiple of the larger alignments
+ERRS = {"ErrA": [("a", ("prim", "u8"))], "ErrB": [("a", ("prim", "u32"))], "ErrC": [("a", ("prim", "f64")), ("b", ("prim", "u8"))],
+        "ErrD": [("a", ("prim", "u8")), ("b", ("prim", "u8")), ("c", ("prim", "u8")), ("d", ("prim", "u8")), ("e", ("prim", "u8"))],
+        "ErrE": [("a", ("prim", "u16")), ("b", ("prim", "u16")), ("c", ("prim", "u16"))]}
+
+
+def fallible(S, name):
+    """the optional / fallible returns exercised for struct `name`: (method, js method, error struct or None)"""
+    out = [("give_opt", "giveOpt", None)]
+    for e in ERRS:
+        if e in S and e != name:
+            out.append((f"give_res_{e.lower()}", "giveRes" + e[0] + e[1:].lower(), e))
+    return out
+
+
+def result_layout(S, t, e):
+    """repr(C) DiplomatResult<t, e>: (offset of is_ok, alignment, size)"""
+    st, at = size_align(S, t)
+    se, ae = size_align(S, e) if e else (0, 1)
+    a = max(at, ae)
+    u = (max(st, se) + a - 1) // a * a
+    return u, a, (u + 1 + a - 1) // a * a
+
+
 def bridge(S):
     s = "#[diplomat::bridge]\nmod ffi {\n    #[allow(unused_imports)]\n    use diplomat_runtime::{DiplomatOption, DiplomatChar};\n    pub enum En { A, B, C = 7, D = -3 }\n"
     for name, fs in S.items():
         s += f"    pub struct {name} {{ " + ", ".join(f"pub {fn}: {rust_ty(ft)}" for fn, ft in fs) + " }\n"
-        s += f"    impl {name} {{ pub fn take(self) {{}} pub fn give() -> {name} {{ todo!() }} }}\n"
+        s += f"    impl {name} {{ pub fn take(self) {{}} pub fn give() -> {name} {{ todo!() }}\n"
+        for m, _, e in fallible(S, name):
+            s += f"        pub fn {m}() -> " + (f"Result<{name}, {e}>" if e else f"Option<{name}>") + " { todo!() }\n"
+        s += "    }\n"
     return s + "}\n"
 
 
@@ -226,7 +253,7 @@ def check(ctx, replay=None):
     rng = ctx.rng
     d = os.path.join(BUILD, "e2e", "c08")
     shutil.rmtree(d, ignore_errors=True); os.makedirs(d, exist_ok=True)
-    goals, viol, nstruct, nvals, samples = [], 0, 0, 0, []
+    goals, viol, nstruct, nvals, samples, nfall = [], 0, 0, 0, [], 0
     def violate(key, obj):
         nonlocal viol
         if len(ctx.violations) < 4:
@@ -234,6 +261,7 @@ def check(ctx, replay=None):
             ctx.violation(key, obj, True)
     for bi in range(2 if ctx.quick() else 10):
         S = gen_structs(rng, 10 if ctx.quick() else 14)
+        S.update(ERRS)
         if bi == 0:      # fixed shapes from the documentation and from past failures first
             S.update({"Pair": [("a", ("prim", "u8")), ("b", ("prim", "u32"))]})
             S.update({"Triple": [("pair", ("struct", "Pair")), ("c", ("prim", "u8"))], "Quad": [("p", ("struct", "Pair")), ("x", ("prim", "u16")), ("y", ("prim", "u64"))],
@@ -283,13 +311,65 @@ def check(ctx, replay=None):
   rec.allocs = globalThis.__allocs.slice();
   out.push(rec);
 }}""")
+                    if vi < 2:
+                        for m, jm, e in fallible(S, n):
+                            u, a, total = result_layout(S, t(n), ("struct", e) if e else None)
+                            for ok in ((True, False) if vi == 0 else (True,)):
+                                if ok or not e:
+                                    payload = buf.hex() if ok else ""
+                                else:
+                                    ev = vals[e][0]
+                                    eb = bytearray(size_align(S, ("struct", e))[0]); pack(S, ("struct", e), ev, eb, 0)
+                                    payload = eb.hex()
+                                drv.append(f"""{{
+  let rec = {{s: "{n}", v: {vi}, fall: "{m}", err: {json.dumps(e)}, ok: {'true' if ok else 'false'}}};
+  globalThis.__allocs.length = 0;
+  globalThis.__hook = (name, args, w) => {{ rec.nargs = args.length; rec.export = name;
+    const bytes = "{payload}".match(/../g) || [];
+    new Uint8Array(w.memory.buffer, args[0], {total}).fill(0);
+    new Uint8Array(w.memory.buffer, args[0], bytes.length).set(Uint8Array.from(bytes.map(h => parseInt(h, 16))));
+    new Uint8Array(w.memory.buffer, args[0] + {u}, 1)[0] = {1 if ok else 0}; return undefined; }};
+  try {{ rec.got = ser({n}.{jm}()); rec.returned = true; }} catch (x) {{ if (x && x.cause !== undefined) rec.cause = ser(x.cause); else rec.error = String(x); }}
+  rec.allocs = globalThis.__allocs.slice();
+  out.push(rec);
+}}""")
             drv.append("console.log(JSON.stringify(out));")
             open(os.path.join(out, "drv.mjs"), "w").write("\n".join(drv))
             r = sh(["node", "drv.mjs"], cwd=out, timeout=300)
             if r.returncode != 0:
                 violate(f"node:{abi}", {"what": f"node failed on the generated modules (js.abi={abi}): {r.stderr[-800:]}", "lib_rs": bridge(S)[:2500]}); continue
             recs = json.loads(r.stdout)
-            for rec in recs:
+            for rec in [r for r in recs if "fall" in r]:
+                n, vi, e = rec["s"], rec["v"], rec["err"]
+                u, a, total = result_layout(S, t(n), ("struct", e) if e else None)
+                shape = f"Result<{n}, {e}>" if e else f"Option<{n}>"
+                ctxinfo = {"method": f"{n}::{rec['fall']}() -> {shape}", "ok_type": [f"{fn}: {rust_ty(ft)}" for fn, ft in S[n]],
+                           "err_type": [f"{fn}: {rust_ty(ft)}" for fn, ft in S[e]] if e else None, "abi": abi,
+                           "repr_c": f"is_ok at offset {u}, alignment {a}, size {total}", "rust_wrote": "Ok/Some" if rec["ok"] else "Err/None"}
+                nvals += 1; nfall += 1
+                if "error" in rec:
+                    violate(f"direct:js-exception:{abi}", dict(ctxinfo, what=f"generated JS threw: {rec['error']}")); continue
+                if rec.get("nargs", 0) < 1 or not rec["allocs"]:
+                    violate(f"direct:result-buffer:{abi}", dict(ctxinfo, what=f"no receive buffer was passed for {shape} (export called with {rec.get('nargs')} arguments)")); continue
+                size_js, align_js = rec["allocs"][0]
+                if align_js != a or size_js - 1 != u:
+                    violate(f"direct:result-buffer:{abi}", dict(ctxinfo, what=f"receive buffer for {shape} allocated as (size {size_js}, align {align_js}) and is_ok read at offset "
+                                                                 f"{size_js - 1}; repr(C) puts is_ok at offset {u} of a value aligned to {a}"))
+                want_ok = canon(S, t(n), vals[n][vi])
+                if rec["ok"]:
+                    if not rec.get("returned") or rec.get("got") != want_ok:
+                        violate(f"direct:result-read:{abi}", dict(ctxinfo, what=f"Rust returned the Ok/Some value {json.dumps(want_ok)}; JS produced "
+                                                               f"{json.dumps(rec.get('got')) if rec.get('returned') else 'an error with cause ' + json.dumps(rec.get('cause'))}"))
+                elif e:
+                    want_err = canon(S, ("struct", e), vals[e][0])
+                    if rec.get("returned") or rec.get("cause") != want_err:
+                        violate(f"direct:result-read:{abi}", dict(ctxinfo, what=f"Rust returned Err({json.dumps(want_err)}); JS produced "
+                                                               f"{'the value ' + json.dumps(rec.get('got')) if rec.get('returned') else 'cause ' + json.dumps(rec.get('cause'))}"))
+                elif not rec.get("returned") or rec.get("got") is not None:
+                    violate(f"direct:result-read:{abi}", dict(ctxinfo, what=f"Rust returned None; JS produced {json.dumps(rec.get('got'))}"))
+                sa = lambda x: f"(sa_of {coq_fty(S, x)})"
+                goals.append(f"agree_recv {sa(t(n))} {sa(('struct', e)) if e else 'unit_sa'} {size_js} {align_js}")
+            for rec in [r for r in recs if "fall" not in r]:
                 n, vi = rec["s"], rec["v"]
                 v = vals[n][vi]
                 fs = S[n]
@@ -355,14 +435,16 @@ def check(ctx, replay=None):
         "diplomat-tool js with js.abi=legacy and js.abi=spec; the generated modules are EXECUTED in node against a mock wasm module (plain "
         "WebAssembly.Memory, bump allocator recording (size, align), recording Proxy for exports): fromFields(v).take() -> recorded argument list "
         "(legacy) or bytes written to memory (spec); give() with the mock storing the repr(C) bytes of v -> values read back and receive-buffer "
-        "(size, align). Expected bytes / slot patterns come from an independent python implementation of the wasm32 repr(C) rule and of "
+        "(size, align); give_opt() / give_res_<E>() -> Option<S> / Result<S, E> for five error structs of alignment 1, 2, 4, 8: the mock stores the "
+        "payload and is_ok where repr(C) DiplomatResult puts them, JS must allocate a buffer of that alignment, read is_ok at that offset and "
+        "return the value / throw the cause. Expected bytes / slot patterns come from an independent python implementation of the wasm32 repr(C) rule and of "
         "docs/wasm_abi_quirks.md; the same observations are checked against Layout/Model.v in Coq. distinct_nontrivial = structs exercised",
         "Modelled, not verified: js/layout.rs (struct_field_info, type_size_alignment_and_scalar_count, ScalarCount), the forcePadding logic of "
         "js/gen.rs + struct.js.jinja, byte-level reads/writes (Layout/Model.v). No wasm32 Rust target exists here: the legacy flattened argument "
         "list is checked against the rule documented in docs/wasm_abi_quirks.md, not against rustc's wasm code generator; i128/u128, slices and "
         "opaque fields are not generated; a 2-scalar struct directly inside an aggregate containing a union is excluded (unresolved corner)",
         samples, ["float fields use exactly representable values; padding bytes are not compared"],
-        {"struct_families": 2 if ctx.quick() else 10, "values": nvals})
+        {"struct_families": 2 if ctx.quick() else 10, "values": nvals, "fallible_returns": nfall})
 
 
 def js_lit(x):
